@@ -132,3 +132,155 @@ Proof.
   specialize (H1 (Nat.max f1 f) ltac:(lia)).
   rewrite (dec_mono f (Nat.max f1 f) _ _ _ _ ltac:(lia) H2) in H1. now inversion H1.
 Qed.
+
+(* ---------------------------------------------------------------------------------------------- *)
+(* named versions of the nested recursions of Types.v / IdlSem.v (convertible to the anonymous ones) *)
+Fixpoint fsizes (fs : list fcheck) : nat := match fs with [] => O | f :: r => (fsize f + fsizes r)%nat end.
+Fixpoint fvalids (fs : list fcheck) (bs : list Z) : bool :=
+  match fs with [] => true | f :: r => fvalid f (firstn (fsize f) bs) && fvalids r (skipn (fsize f) bs) end.
+Lemma fsize_struct fs : fsize (FStruct fs) = fsizes fs. Proof. reflexivity. Qed.
+Lemma fvalid_struct fs bs : fvalid (FStruct fs) bs = fvalids fs bs. Proof. reflexivity. Qed.
+
+Fixpoint encodes (ts : list ty) (vs : list val) : list Z :=
+  match ts, vs with t :: ts', v :: vs' => encode t v ++ encodes ts' vs' | _, _ => [] end.
+Fixpoint wfs (ts : list ty) (vs : list val) : bool :=
+  match ts, vs with [], [] => true | t :: ts', v :: vs' => wf t v && wfs ts' vs' | _, _ => false end.
+Lemma encode_struct ts vs : encode (TStruct ts) (VStruct vs) = encodes ts vs. Proof. reflexivity. Qed.
+Lemma wf_struct ts vs : wf (TStruct ts) (VStruct vs) = wfs ts vs. Proof. reflexivity. Qed.
+
+Fixpoint enc_variant (d : Z) (p : val) (vars : list (Z * ty)) : list Z :=
+  match vars with [] => [] | (d', t) :: r => if d =? d' then encode t p else enc_variant d p r end.
+Fixpoint wf_variant (d : Z) (p : val) (vars : list (Z * ty)) : bool :=
+  match vars with [] => false | (d', t) :: r => if d =? d' then wf t p else wf_variant d p r end.
+Lemma encode_enum rw vars d p : encode (TEnum rw vars) (VEnum d p) = le_bytes rw d ++ enc_variant d p vars.
+Proof.
+  cbn [encode]. f_equal. induction vars as [|[d' t] r IH]; cbn [enc_variant]; auto.
+  destruct (d =? d'); auto.
+Qed.
+Lemma wf_enum rw vars d p :
+  wf (TEnum rw vars) (VEnum d p) = (0 <=? d) && (d <? 256 ^ Z.of_nat rw) && wf_variant d p vars.
+Proof.
+  cbn [wf]. f_equal. induction vars as [|[d' t] r IH]; cbn [wf_variant]; auto.
+  destruct (d =? d'); auto.
+Qed.
+
+Lemma fix_to_idl_struct fs defs :
+  fix_to_idl (XStruct fs) defs = let (ts, d) := fixes_to_idl fs defs in (IDefined (length d), d ++ [IStruct ts]).
+Proof. reflexivity. Qed.
+
+Fixpoint stys_to_idl (fs : list sty) (defs : list ity) : list ity * list ity :=
+  match fs with
+  | [] => ([], defs)
+  | f :: r => let (t, d1) := to_idl f defs in let (ts, d2) := stys_to_idl r d1 in (t :: ts, d2)
+  end.
+Fixpoint variants_to_idl (vs : list (Z * option sty)) (defs : list ity) : list (list Z * option ity) * list ity :=
+  match vs with
+  | [] => ([], defs)
+  | (dv, None) :: r => let (ivs, d2) := variants_to_idl r defs in (([dv], None) :: ivs, d2)
+  | (dv, Some t) :: r =>
+      let (it, d1) := to_idl t defs in
+      let (ivs, d2) := variants_to_idl r d1 in (([dv], Some (IStruct [it])) :: ivs, d2)
+  end.
+Lemma to_idl_struct sized fs defs :
+  to_idl (SStruct sized fs) defs =
+  let (sts, d1) := fixes_to_idl sized defs in
+  let (uts, d2) := stys_to_idl fs d1 in (IDefined (length d2), d2 ++ [IStruct (sts ++ uts)]).
+Proof. reflexivity. Qed.
+Lemma to_idl_enum vs defs :
+  to_idl (SEnum vs) defs =
+  let (ivs, d) := variants_to_idl vs defs in (IDefined (length d), d ++ [IEnum (IPrim P_U8) ivs]).
+Proof. reflexivity. Qed.
+
+Fixpoint embed_array (x : sfix) (n : nat) (bs : list Z) : list ival :=
+  match n with
+  | O => []
+  | S m => embed_fix x (firstn (fsize (erase_fix x)) bs) :: embed_array x m (skipn (fsize (erase_fix x)) bs)
+  end.
+Lemma embed_fix_array n x bs : embed_fix (XArray n x) bs = IVList (embed_array x n bs). Proof. reflexivity. Qed.
+Lemma embed_fix_struct fs bs : embed_fix (XStruct fs) bs = IVStruct (embed_fixes fs bs). Proof. reflexivity. Qed.
+
+Fixpoint embeds (fs : list sty) (vs : list val) : list ival :=
+  match fs, vs with f :: fr, v :: vr => embed f v :: embeds fr vr | _, _ => [] end.
+Fixpoint embed_variant (d : Z) (p : val) (vars : list (Z * option sty)) : option ival :=
+  match vars with
+  | [] => None
+  | (d', None) :: r => if d =? d' then None else embed_variant d p r
+  | (d', Some t) :: r => if d =? d' then Some (IVStruct [embed t p]) else embed_variant d p r
+  end.
+Lemma embed_struct sized fs vs :
+  embed (SStruct sized fs) (VStruct vs) =
+  match sized, vs with
+  | [], _ => IVStruct (embeds fs vs)
+  | _, VBytes sb :: vr => IVStruct (embed_fixes sized sb ++ embeds fs vr)
+  | _, _ => IVStruct []
+  end.
+Proof. reflexivity. Qed.
+Lemma embed_enum vars d p : embed (SEnum vars) (VEnum d p) = IVEnum d (embed_variant d p vars).
+Proof.
+  cbn [embed]. f_equal. induction vars as [|[d' [t|]] r IH]; cbn [embed_variant]; auto;
+  destruct (d =? d'); auto.
+Qed.
+
+Fixpoint stys_ok (last : bool) (fs : list sty) : bool :=
+  match fs with [] => true | [f] => sty_ok last f | f :: r => sty_ok false f && stys_ok last r end.
+Fixpoint variants_ok (last : bool) (vs : list (Z * option sty)) : bool :=
+  match vs with [] => true | (_, None) :: r => variants_ok last r | (_, Some t) :: r => sty_ok last t && variants_ok last r end.
+Lemma sty_ok_struct last sized fs : sty_ok last (SStruct sized fs) = forallb fix_ok sized && stys_ok last fs.
+Proof. reflexivity. Qed.
+Lemma sty_ok_enum last vs :
+  sty_ok last (SEnum vs) =
+  distinct (map fst vs) && forallb (fun dv => (0 <=? fst dv) && (fst dv <? 256)) vs && variants_ok last vs.
+Proof. reflexivity. Qed.
+
+(* induction principles of the nested inductives *)
+Section SfixInd.
+  Variable P : sfix -> Prop.
+  Hypothesis HPrim : forall k, P (XPrim k).
+  Hypothesis HArray : forall n x, P x -> P (XArray n x).
+  Hypothesis HStruct : forall fs, Forall P fs -> P (XStruct fs).
+  Hypothesis HEnum : forall ds, P (XEnum ds).
+  Fixpoint sfix_ind' (x : sfix) : P x :=
+    match x with
+    | XPrim k => HPrim k
+    | XArray n x' => HArray n x' (sfix_ind' x')
+    | XStruct fs =>
+        HStruct fs ((fix all (l : list sfix) : Forall P l :=
+                       match l with [] => Forall_nil P | y :: r => Forall_cons y (sfix_ind' y) (all r) end) fs)
+    | XEnum ds => HEnum ds
+    end.
+End SfixInd.
+
+Definition optP {A} (P : A -> Prop) (o : option A) : Prop := match o with Some a => P a | None => True end.
+
+Section StyInd.
+  Variable P : sty -> Prop.
+  Hypothesis HList : forall lw x, P (SList lw x).
+  Hypothesis HMap : forall lw k v, P (SMap lw k v).
+  Hypothesis HSet : forall lw k, P (SSet lw k).
+  Hypothesis HString : P SString.
+  Hypothesis HRem : P SRem.
+  Hypothesis HUList : forall it, P it -> P (SUList it).
+  Hypothesis HUMap : forall k it, P it -> P (SUMap k it).
+  Hypothesis HStruct : forall sized fs, Forall P fs -> P (SStruct sized fs).
+  Hypothesis HEnum : forall vs, Forall (fun dv => optP P (snd dv)) vs -> P (SEnum vs).
+  Fixpoint sty_ind' (s : sty) : P s :=
+    match s with
+    | SList lw x => HList lw x
+    | SMap lw k v => HMap lw k v
+    | SSet lw k => HSet lw k
+    | SString => HString
+    | SRem => HRem
+    | SUList it => HUList it (sty_ind' it)
+    | SUMap k it => HUMap k it (sty_ind' it)
+    | SStruct sized fs =>
+        HStruct sized fs ((fix all (l : list sty) : Forall P l :=
+                             match l with [] => Forall_nil P | y :: r => Forall_cons y (sty_ind' y) (all r) end) fs)
+    | SEnum vs =>
+        HEnum vs ((fix all (l : list (Z * option sty)) : Forall (fun dv => optP P (snd dv)) l :=
+                     match l with
+                     | [] => Forall_nil _
+                     | y :: r =>
+                         Forall_cons y (match snd y as o return optP P o with Some a => sty_ind' a | None => I end) (all r)
+                     end) vs)
+    end.
+End StyInd.
